@@ -59,6 +59,9 @@ def run(ctx: Ctx):
   ctx.include('R-C01-21', '"any number of independent accumulators ... merged in any grouping and order": a keyed accumulator merges'
               ' over the OPERAND\'s keys (R-C11-10) — iterating the raw configuration instead (a bare metric name iterates as'
               ' characters) makes merge a silent no-op, and the roll-up of shards differs from the single accumulator', c11.r10, m)
+  ctx.include('R-C01-22', '"splitting the examples arbitrarily into batches ... same result": a per-feature statistic (dtype of the'
+              ' user\'s data) is re-bound, never updated in place (R-C11-16) — an integer batch followed by a float batch would'
+              ' otherwise raise in add() while the other order, or one batch, works', c11.r16, m, min_instances=4)
 
 def _c11_shared(sub, m):
   sub.guard(c11.r1, m)
@@ -1345,6 +1348,8 @@ from mlmverif.selfcheck import B, OK  # noqa: E402
 _R = 'aggregates/rolling_stats.py'
 _C = 'aggregates/classification.py'
 VARIANTS = [
+    B('regression-add-updates-in-place', 'aggregates/rolling_stats.py',
+      "    self.sum_x = self.sum_x + np.sum(x, axis=0)", "    self.sum_x += np.sum(x, axis=0)", 'R-C01-22'),
     B('counter-of-a-flat-array-through-unique', _R,
       "  def new(self, inputs: Iterable[_T]) -> Self:\n    return self.__class__(_counter=collections.Counter(inputs))",
       "  def new(self, inputs: Iterable[_T]) -> Self:\n    if isinstance(inputs, np.ndarray) and inputs.ndim == 1:\n      keys, counts = np.unique(inputs, return_counts=True)\n      return self.__class__(_counter=collections.Counter(dict(zip(keys.tolist(), counts.tolist()))))\n    return self.__class__(_counter=collections.Counter(inputs))", 'R-C01-20'),
